@@ -35,7 +35,7 @@ def run(res, args):
     if not ok:
         return res.finish()
     rng = common.rng_for(res.seed, "c02")
-    mult = 1 if res.tier == "quick" else 10
+    mult = 1 if res.tier == "quick" else 30
     if not (res.proof_ok and res.corr_ok):
         mult *= 5
     streams = []
